@@ -56,6 +56,9 @@ def check_stats(rec: core.Recorder, h, values, weights, *, op: str, median=None,
         if not model.close(float(st.variance()), var, scale, 1e-7):
             fail("variance() is not the weighted population variance of the raw data", variance=var, got=float(st.variance()))
         sd = float(st.std())
+        if weights is None or all(float(w_) >= 0 for w_ in weights):
+            if not (float(st.variance()) >= 0) or math.isnan(sd):
+                fail("variance() is negative / std() is NaN for data entered with non-negative weights", variance=float(st.variance()), std=sd)
         if var > 1e-6 * scale and not model.close(sd, math.sqrt(max(var, 0.0)), math.sqrt(scale), 1e-6):
             fail("std() is not the square root of the variance", std=math.sqrt(max(var, 0.0)), got=sd)
     elif len(values) == 0:
@@ -382,7 +385,63 @@ def collection_case(ctx, index, rng: random.Random):
     rec.case(["collection", k, gen.hexlist(lv)], len(lv) >= 3, cls=f"collection/{k}")
 
 
+def narrow_data_case(ctx, index, rng: random.Random):
+    """Values handed over in a compact element type (int16 / int32 counts, float32 / float16 read-outs) or all equal: the recorded sums
+    are those of the numbers (not of their squares taken modulo the integer type), the variance is never negative and std() never NaN."""
+    import physt
+    from physt.binnings import NumpyBinning
+    from physt.histogram1d import Histogram1D
+
+    rec = ctx.rec
+    kind = rng.choice(["int16", "int32", "int64_big", "float32", "float16", "constant", "constant", "offset"])
+    if kind == "constant":
+        v = rng.choice([0.1, 0.3, 0.7, 1.0 / 3, 2.2, 1e-3])
+        n = rng.randint(1, 12)
+        data = np.full(n, v)
+        edges = np.array([0.0, 1.0, 2.0, 3.0])
+    elif kind == "offset":
+        base = rng.choice([1e6, 1.7e9, 1e8])
+        n = rng.randint(2, 40)
+        data = base + np.asarray([rng.randint(-8, 8) / 8 for _ in range(n)])
+        edges = np.array([base - 2, base, base + 2])
+    else:
+        dt = {"int64_big": "int64"}.get(kind, kind)
+        pool = {"int16": [100, 200, 300, 181, 182], "int32": [100, 200, 60000, 70000, 46341], "int64_big": [1, 4_000_000_000, 4_000_000_001, 3_037_000_500],
+                "float32": [100.0, 200.0, 60000.0, 70000.0, 0.1], "float16": [100.0, 200.0, 30000.0, 0.5]}[kind]
+        n = rng.randint(1, 10)
+        data = np.asarray([rng.choice(pool) for _ in range(n)], dtype=dt)
+        edges = np.array([0.0, 1000.0, 1e5, 1e10])
+    how = rng.choice(["h1", "from_calculate_frequencies", "fill_n", "fill", "sum"])
+    desc = {"kind": kind, "how": how, "data": np.asarray(data, dtype=float).tolist()[:10], "dtype": str(data.dtype)}
+    try:
+        with warnings.catch_warnings():
+            warnings.simplefilter("ignore")
+            if how == "h1":
+                h = physt.h1(data, edges)
+            elif how == "from_calculate_frequencies":
+                h = Histogram1D.from_calculate_frequencies(data, NumpyBinning(edges))
+            elif how == "fill_n":
+                h = physt.h1(None, edges)
+                h.fill_n(data)
+            elif how == "fill":
+                h = physt.h1(None, edges)
+                for x in data:
+                    h.fill(x)
+            else:
+                k = len(data) // 2
+                h = physt.h1(data[:k], edges) + Histogram1D.from_calculate_frequencies(data[k:], NumpyBinning(edges))
+    except Exception as ex:
+        rec.mon("C14.ledger")
+        rec.fail(monitor="C14.ledger", op=how, symptom=f"entering in-range values raised {type(ex).__name__}", diff=["raised"], detail={**desc, "error": str(ex)[:140]})
+        return
+    with attach.quiet():
+        vals = [float(x) for x in data]
+        check_stats(rec, h, vals, None, op=f"narrow_data/{how}", detail=desc, rel=1e-3 if kind == "float16" else (1e-6 if kind == "float32" else 1e-9))
+    rec.case(["narrow_data", kind, how, desc["data"]], len(data) > 1, cls=f"narrow_data/{kind}/{how}")
+
+
 def run(ctx):
+    ctx.run_cases(ctx.scale(120, 800), narrow_data_case, salt="narrowdata")
     attach_monitors()
     ctx.run_cases(ctx.scale(60, 400), collection_case, salt="collection")
     ctx.run_cases(ctx.scale(500, 4000), one_history, salt="ledger")
